@@ -642,6 +642,8 @@ class Terms:
                 return ("const", cv)
             if v.get("k") == "zst":
                 return ("const", ())
+            if v.get("k") == "static":
+                return ("static", v["path"])
             return ("unknown", "const:" + str(v.get("k")))
         return ("unknown", k)
 
